@@ -822,3 +822,79 @@ func runModeUniform(p *Program, r *RuleResult) {
 		}
 	}
 }
+
+// R-MODE-ASSIGN-GUARDED (C16, C10): an annotation written by the user is never overwritten.
+func init() {
+	register(&Rule{Name: "R-MODE-ASSIGN-GUARDED", Min: 7,
+		Doc: "every store to the mode field of an existing type node (outside the constructors and copy functions, which write the field of the node they have just allocated) lies on the branch where that node's current mode was tested to be the unset mode: mode completion only fills in what the user left out",
+		Run: runModeAssignGuarded})
+}
+
+func runModeAssignGuarded(p *Program, r *RuleResult) {
+	stI := p.Named(typesPkg, "SessionType").Underlying().(*types.Interface)
+	unset := p.Named(typesPkg, "UnsetMode")
+	n := 0
+	for _, fn := range p.SrcFuncs {
+		if fn.Pkg == nil || fn.Pkg.Pkg.Path() != typesPkg || fn.Blocks == nil {
+			continue
+		}
+		view := p.View(fn)
+		ord := 0
+		for _, b := range view.Blocks() {
+			for _, in := range view.Instrs(b) {
+				st, ok := in.(*ssa.Store)
+				if !ok {
+					continue
+				}
+				fa, ok := st.Addr.(*ssa.FieldAddr)
+				if !ok {
+					continue
+				}
+				owner := namedOf(fa.X.Type())
+				if owner == nil || !(types.Implements(types.NewPointer(owner), stI) || types.Implements(owner, stI)) {
+					continue
+				}
+				_, fname, _ := fieldNameOf(fa)
+				ft := fa.Type().Underlying().(*types.Pointer).Elem()
+				if !isNamed(ft, typesPkg, "Modality") {
+					continue
+				}
+				// the node was allocated in this function: constructor / copy
+				if _, fresh := origin(fa.X).(*ssa.Alloc); fresh {
+					continue
+				}
+				n++
+				ord++
+				construct := fmt.Sprintf("store-%s.%s#%d", owner.Obj().Name(), fname, ord)
+				key := exprKey(fa)
+				guarded := false
+				for f := range view.FactsAt(b) {
+					if f.k != factTrue {
+						continue
+					}
+					ex, ok := f.v.(*ssa.Extract)
+					if !ok || ex.Index != 1 {
+						continue
+					}
+					ta, ok := ex.Tuple.(*ssa.TypeAssert)
+					if !ok || !ta.CommaOk {
+						continue
+					}
+					if nt := namedOf(ta.AssertedType); nt == nil || nt.Obj() != unset.Obj() {
+						continue
+					}
+					if ld, ok := ta.X.(*ssa.UnOp); ok && exprKey(ld.X) == key && key != "" {
+						guarded = true
+					}
+				}
+				if guarded {
+					r.add(fnName(fn), construct, Holds, p.instrPos(st), "on the branch where the field held the unset mode")
+				} else {
+					r.add(fnName(fn), construct, Violated, p.instrPos(st),
+						fmt.Sprintf("the mode of an existing %s node is overwritten without a test that it was unset: a mode the user wrote is silently replaced (annotation not respected, inference not stable under adding the inferred annotation)", owner.Obj().Name()))
+				}
+			}
+		}
+	}
+	r.count("mode stores into existing nodes", n)
+}
